@@ -46,6 +46,13 @@ SUM = {
  "C16-3": ("C16", "SubscribeStream::poll_next returns Pending after consuming a PUBLISH whose Payload Format Indicator is 1 but whose payload is not UTF-8", "such a message followed by another one for the same stream, consumer polled only when woken"),
  "C17-3": ("C17", "acknowledgement handling refactored into a helper that returns early when no awaiting_ack entry exists, before removing the retransmission copy", "QoS 2 publish dropped before PUBREC, context-sent PUBREL answered with PUBCOMP, connection lost, session resumed: the PUBREL is replayed"),
  "C03-3": ("C03", "RxPacketStream::poll_next gives up after 32 poll_read calls within one poll and returns Pending without waking itself", "one packet whose bytes arrive in more than 32 transport reads that are all ready back to back (e.g. a 34+ byte packet in single-byte reads all available at once), wake-only executor"),
+ "C01-3": ("C01", "a PINGREQ is not written while another ping awaits its PINGRESP; one PINGRESP then resolves every waiting ping (two cooperating sites)", "a ping() reaching the context while an earlier ping is unanswered (two clones, or a dropped ping future followed by a new ping): a whole PINGREQ is missing from the wire although both futures complete"),
+ "C02-3": ("C02", "CONNACK/AUTH decoders reject Authentication Data unless Authentication Method was seen earlier in the property block", "an extended-authentication reply whose property 0x16 precedes 0x15 (MQTT puts no order on properties)"),
+ "C04-3": ("C04", "RxPacketStream keeps the previous packet length as a read hint and, while 'collecting', skips re-parsing the header (two hunks)", "a well-formed inbound packet >= 512 bytes whose last read ends with it, followed by short packets in later reads: they are taken off the transport and never decoded (silent stall, EOF still reported)"),
+ "C08-3": ("C08", "'flow control hardening': an inbound QoS 2 PUBLISH is dropped when as many are unreleased as the SERVER's Receive Maximum", "CONNACK Receive Maximum N small, N inbound QoS 2 exchanges awaiting PUBREL, one more fresh QoS 2 PUBLISH: no PUBREC, no delivery"),
+ "C09-3": ("C09", "identifier-hygiene helper called from the PUBCOMP arm too: the client's outbound PUBCOMP(N) erases inbound identifier N from the unreleased set", "inbound QoS 2 N delivered and unreleased, the client's own QoS 2 publish uses the same number N and completes, then the broker re-sends PUBLISH(N) before PUBREL: delivered twice"),
+ "C11-3": ("C11", "a publish refused locally (quota / size) hands its identifier back with fetch_sub when the future sees the refusal", "another clone allocates between the refused publish's first poll and the poll that sees the refusal, and its operation is still outstanding at the next allocation: same identifier twice"),
+ "C12-3": ("C12", "handle_connack takes the Maximum Packet Size only when Session Present is 0", "CONNACK with Session Present = 1 carrying Maximum Packet Size M, any request longer than M: written in full"),
 }
 for d in sorted(glob.glob('/verif/seeded/*/')):
     name = os.path.basename(d.rstrip('/'))
